@@ -113,8 +113,9 @@ let run_line toks =
       let timeout = z_of_string (match get "timeout" with Some v -> v | None -> "0") in
       let errname c = (match int_of_n c with
         | 1 -> "nomethod" | 2 -> "both" | 3 -> "nomac" | 4 -> "unknown" | 5 -> "aeskeylen" | 6 -> "aesalgo"
-        | 7 -> "badhex" | 8 -> "hmackeyshort" | 9 -> "cbckeysize" | 10 -> "badhash" | _ -> "other") in
-      (match pool_config (geth "enc") (geth "mac") (geth "cbc") (geth "key") (geth "hkey") (geth "ckey") with
+        | 7 -> "badhex" | 8 -> "hmackeyshort" | 9 -> "cbckeysize" | 10 -> "badhash" | 11 -> "keyfileempty" | _ -> "other") in
+      let ksrc name = (match get (name ^ "file") with Some v -> KFile (bytes_of_hex v) | None -> KHex (geth name)) in
+      (match pool_config (geth "enc") (geth "mac") (geth "cbc") (ksrc "key") (ksrc "hkey") (ksrc "ckey") with
        | Inl (PrepErr (c, _)) -> "cfgerr:" ^ errname c
        | Inl (PrepOk _) -> "MODEL-BUG"
        | Inr r ->
@@ -138,6 +139,7 @@ let run_line toks =
                 Buffer.add_string out (" L=" ^ load_p true (PrepOk c) !now (bytes_of_hex (valof t)))
               else ()) rest;
             Buffer.contents out))
+  | "kat" :: _ -> "ok"
   | _ -> "BAD-CASE"
 
 let () = main_loop run_line
